@@ -154,6 +154,7 @@ def main(argv=None):
             floor = {'default': 900, 'wasm': 400, 'allfeatures': 800}[cfg]
             cov['configs'].append({'config': cfg, 'bodies': nb, 'crates': prog.crates(), 'fact_files': prog.files})
             cov['bodies_analysed'] += nb
+            cov['crates'] = sorted(set(cov['crates']) | set(prog.crates()))
             rep, mod = run_property(pid, prog, cfg, args.tier)
             stolen_fns = [n for (c, n) in prog.stolen if 'CALLSITE' not in n]
             if stolen_fns:
